@@ -179,8 +179,10 @@ Print Assumptions C01_linear_ok_outside_K1.
 Definition i8 : ity := {| signed := true; bits := 8 |}.
 Lemma K1_witness_midpoint : int_midpoint i8 (-100) 100 = Panic /\ in_range i8 0 = true.
 Proof. split; vm_compute; reflexivity. Qed.
+Print Assumptions K1_witness_midpoint.
 Lemma K1_witness_linear : int_linear i8 (-100) 100 (f64_of_bits 4607092346807469998) = Panic.
 Proof. vm_compute. reflexivity. Qed.
+Print Assumptions K1_witness_linear.
 
 (* the magnitude bound of Linear is necessary: above 2^53 the documented computation through
    f64 leaves the bracket (a documented limit of the property, not a finding) *)
